@@ -34,6 +34,7 @@ fn fuzz_opts() -> GraphOpts {
         wide: true,
         mega: false,
         symlinks: false,
+        read_above: true,
     }
 }
 
